@@ -15,6 +15,13 @@ THEOREMS = ['Vakt.C18.gated_and_ordered', 'Vakt.C18.version_never_past_failed', 
             'Vakt.C18.up_down_restores', 'Vakt.C18.up_down_restores_version',
             'Vakt.Migration.loop_resume', 'Vakt.Migration.loop_trace',
             'Vakt.C18.probes_ok']
+# obligations over what was translated from /repo/vakt/storage/migration.py in this run: MigrationSet._get_migrations is the model's
+# `select`, and MigrationSet.up / down - their effects on the store threaded through as an explicit world value - end in the state
+# and raise flag the model's `request` computes, for every order list, start state, request number and fault plan
+# (lean/Gen/EquivMigration.lean)
+EXTRA_BUILD = ['+Gen.EquivMigration']
+GEN_IMPORTS = ['Gen.EquivMigration']
+GEN_THEOREMS = ['Vakt.GenEquiv.gen_get_migrations', 'Vakt.GenEquiv.gen_up', 'Vakt.GenEquiv.gen_down']
 FLOOR = {'quick': 1000, 'thorough': 20000}
 ASSUMPTIONS = ['step bodies are idempotent and either complete or have no effect (the recording set, create_all / '
                'drop_all, create_index behave so); a body that fails half-way is outside the model',
